@@ -126,4 +126,4 @@ for c in req["cases"]:
             res.append(run_case(c))
     except Exception as e:
         res.append({"id": c["id"], "error": type(e).__name__ + ": " + str(e)[:300]})
-print(json.dumps({"mode": mode, "results": res}))
+print(json.dumps({"mode": mode, "results": res}, default=__import__("_util").jdefault))
